@@ -34,16 +34,16 @@ PROP = dict(
                  'HMAC Init keys <= block, exact in-situ overlap only, update lengths fit uint32_t)'],
     targets=[
         dict(name='c12_pbkdf2_longpw', src=['props/C12/hmac_kdf.cc'] + _O, libs=_L, defs=['C12_ONLY_PBKDF2', 'C12_PBKDF2_MAXPW=129'],
-             quick=dict(cases=5000, secs=20), thorough=dict(cases=300000, secs=90)),
+             quick=dict(cases=5000, secs=10), thorough=dict(cases=300000, secs=90)),
         dict(name='c12_digest', src=['props/C12/digest.cc'] + _O, libs=_L,
-             quick=dict(cases=130000, secs=25), thorough=dict(cases=12000000, secs=200)),
+             quick=dict(cases=130000, secs=15), thorough=dict(cases=12000000, secs=200)),
         dict(name='c12_hmac_kdf', src=['props/C12/hmac_kdf.cc'] + _O, libs=_L,
-             quick=dict(cases=130000, secs=25), thorough=dict(cases=8000000, secs=200)),
+             quick=dict(cases=130000, secs=20), thorough=dict(cases=6000000, secs=200)),
         dict(name='c12_cipher', src=['props/C12/cipher.cc'] + _O, libs=_L,
-             quick=dict(cases=90000, secs=20), thorough=dict(cases=6000000, secs=150)),
+             quick=dict(cases=90000, secs=12), thorough=dict(cases=6000000, secs=150)),
         dict(name='c12_aead', src=['props/C12/aead.cc'] + _O, libs=_L,
-             quick=dict(cases=120000, secs=30), thorough=dict(cases=3000000, secs=200)),
+             quick=dict(cases=120000, secs=25), thorough=dict(cases=2500000, secs=200)),
         dict(name='c12_aead_strict', src=['props/C12/aead.cc'] + _O, libs=_L, defs=['C12_STRICT'],
-             quick=dict(cases=25000, secs=20), thorough=dict(cases=400000, secs=60)),
+             quick=dict(cases=25000, secs=10), thorough=dict(cases=400000, secs=60)),
     ],
 )
